@@ -35,12 +35,10 @@ def clientRange (tags : List (Int × Int)) : Int × Int :=
     (if acc.1 < 0 || t.1 < acc.1 then t.1 else acc.1,
      if acc.2 < 0 || t.2 > acc.2 then t.2 else acc.2)) (-1, -1)
 
-/-- ApiKey.SelectVersion(minVersion, maxVersion) with the client's range `[cmin, cmax]`.
-The broker's `bmin` is not consulted by the code. -/
-def selectVersion (cmin cmax _bmin bmax : Int) : Int :=
-  if cmin > bmax then cmin
-  else if cmax < bmax then cmax
-  else bmax
+/-- ApiKey.SelectVersion(minVersion, maxVersion) with the client's range `[cmin, cmax]`: the body is regenerated
+from protocol/protocol.go on every run (`Gen.Routing.selectVersionSrc`, a statement-by-statement translation).
+Today: `if cmin > bmax then cmin else if cmax < bmax then cmax else bmax` — the broker's `bmin` is not consulted. -/
+def selectVersion (cmin cmax bmin bmax : Int) : Int := KV.Gen.Routing.selectVersionSrc cmin cmax bmin bmax
 
 /-- association-list insert with Go map semantics (assignment replaces) -/
 def ainsert {κ ν : Type} [BEq κ] (m : List (κ × ν)) (k : κ) (v : ν) : List (κ × ν) :=
@@ -184,6 +182,38 @@ def leaderAll (c : Cluster) : List (String × List Int) → Int → Except Route
       | .error e => .error e
       | .ok cur' => leaderAll c rest cur'
 
+/-! ### the leader loops with the iteration regenerated from the source
+
+`Gen.Routing.leaderStep_<pkg>` / `leaderTopic_<pkg>` / `leaderInit_<pkg>` are obtained by executing the body of
+`(*Request).Broker` of produce / fetch / rawproduce symbolically; `leaderAllWith` folds them over the request the way
+the two `for … range` loops do.  Props/C12 proves `leaderAllWith … = leaderAll` for the three packages. -/
+
+def toRouteErr : KV.Gen.Routing.LeaderErr → RouteErr
+  | .noTopic => .noTopic
+  | .noPartition => .noPartition
+  | .noLeader => .noLeader
+  | .mismatch => .mismatch
+
+abbrev LeaderStep := Int → Option Int → (Int → Option Int) → Except KV.Gen.Routing.LeaderErr Int
+
+def leaderPartsWith (step : LeaderStep) (c : Cluster) (t : Topic) : List Int → Int → Except RouteErr Int
+  | [], cur => .ok cur
+  | p :: ps, cur =>
+    match step cur ((t.partitions.lookup p).map (·.leader)) (fun id => (c.brokers.lookup id).map (·.id)) with
+    | .error e => .error (toRouteErr e)
+    | .ok cur' => leaderPartsWith step c t ps cur'
+
+def leaderAllWith (topicf : Bool → Option KV.Gen.Routing.LeaderErr) (step : LeaderStep) (c : Cluster) :
+    List (String × List Int) → Int → Except RouteErr Int
+  | [], cur => .ok cur
+  | (tn, ps) :: rest, cur =>
+    match topicf (c.topics.lookup tn).isSome with
+    | some e => .error (toRouteErr e)
+    | none =>
+      match leaderPartsWith step c ((c.topics.lookup tn).getD Topic.zero) ps cur with
+      | .error e => .error e
+      | .ok cur' => leaderAllWith topicf step c rest cur'
+
 /-- listoffsets.Request.Broker: only `Topics[0].Partitions[0]` is looked at (index panics are explicit);
 an unknown topic / partition / leader gives −1 (the control connection: any broker answers with the error code). -/
 def leaderFirst (c : Cluster) (tps : List (String × List Int)) : Except RouteErr Int :=
@@ -245,10 +275,10 @@ def classOf (cases : List SwitchCase) (a : ApiMethods) : Option RClass :=
   | some _ => none
   | none => some .anyBroker
 
-/-- tail of sendRequest: `brokerID >= 0` → grabBrokerConn (BrokerNotAvailable if the pool has no
+/-- tail of sendRequest: the regenerated guard (`Gen.Routing.usesBrokerConn`, today `brokerID >= 0`) → grabBrokerConn (BrokerNotAvailable if the pool has no
 connection group for it), else the control connection -/
 def sendTarget (conns : List (Int × Addr)) (brokerID : Int) : Target :=
-  if brokerID ≥ 0 then
+  if KV.Gen.Routing.usesBrokerConn brokerID then
     match conns.lookup brokerID with
     | some addr => .broker brokerID addr
     | none => .err .brokerNotAvailable
@@ -317,11 +347,12 @@ def searchLoop (f : Nat → Bool) : Nat → Nat → Nat → Nat
 
 def sortSearch (n : Nat) (f : Nat → Bool) : Nat := searchLoop f n 0 n
 
-/-- transport.go findMetadataTopic -/
+/-- transport.go findMetadataTopic; the search predicate and the final test are regenerated from the source
+(`Gen.Routing.searchPred`, today `elem ≥ target`; `searchHit`, `elem = target`) -/
 def findTopic (topics : List MTopic) (name : String) : Option Nat :=
-  let i := sortSearch topics.length (fun i => match topics[i]? with | some t => decide (name ≤ t.name) | none => true)
+  let i := sortSearch topics.length (fun i => match topics[i]? with | some t => KV.Gen.Routing.searchPred t.name name | none => true)
   match topics[i]? with
-  | some t => if t.name == name then some i else none
+  | some t => if KV.Gen.Routing.searchHit t.name name then some i else none
   | none => none
 
 /-- UnknownTopicOrPartition -/
@@ -350,6 +381,19 @@ structure PoolState where
 
 def keys {κ ν : Type} (m : List (κ × ν)) : List κ := m.map (·.1)
 
+/-- did the broker entry change?  The comparison itself is regenerated from the source (`Gen.Routing.updateCompare`) -/
+def brokersDiffer : KV.Gen.Routing.BrokerCompare → Broker → Broker → Bool
+  | .whole, b1, b2 => b1 != b2
+  | .fields fs, b1, b2 =>
+    (fs.contains "ID" && b1.id != b2.id) || (fs.contains "Host" && b1.host != b2.host) ||
+    (fs.contains "Port" && b1.port != b2.port) || (fs.contains "Rack" && b1.rack != b2.rack)
+  | .other, b1, b2 => b1 != b2
+
+/-- `b1` (cached) against the new entry under the same id (`none`: not in the new layout) -/
+def differs (b1 : Broker) : Option Broker → Bool
+  | some b2 => brokersDiffer KV.Gen.Routing.updateCompare b1 b2
+  | none => true
+
 /-- (*connPool).update(metadata, err): a broker whose entry (id, host, port, rack) differs from the cached one in
 any field has its group closed and re-created at the new address (`b1 != b2` on the whole struct) -/
 def update (s : PoolState) (m : Option MResponse) (err : Bool) : PoolState :=
@@ -361,11 +405,11 @@ def update (s : PoolState) (m : Option MResponse) (err : Bool) : PoolState :=
     let add := (keys layout.brokers).filter (fun id =>
       match s.layout.brokers.lookup id with
       | none => true
-      | some b1 => some b1 != layout.brokers.lookup id)
+      | some b1 => differs b1 (layout.brokers.lookup id))
     let del := ((keys layout.brokers).filter (fun id =>
       match s.layout.brokers.lookup id with
       | none => false
-      | some b1 => some b1 != layout.brokers.lookup id)) ++
+      | some b1 => differs b1 (layout.brokers.lookup id))) ++
       ((keys s.layout.brokers).filter (fun id => (layout.brokers.lookup id).isNone))
     { metadata := m', layout := layout, err := false,
       conns := (s.conns.filter (fun e => !del.contains e.1)) ++
